@@ -40,6 +40,29 @@ def check(ctx):
             c["npargs"] = 1
             cfgs.append(c)
     traces = record.record_many(cfgs)
+    # cold-start giants: valid tuples with many steps, each constructed and asked for its first
+    # actions in a FRESH interpreter (nothing memoised, full recursion depth)
+    import json as _json
+    import os as _os
+    import subprocess as _sp
+    import sys as _sys
+    from .common import VERIF as _V
+    giants = [mkcfg("Mixed", max_n=700, ram=3, st=1), mkcfg("Mixed", max_n=520, ram=40, st=0),
+              mkcfg("Multistage", max_n=1000, ram=0, disk=4), mkcfg("Multistage", max_n=600, ram=3, disk=3),
+              mkcfg("TwoLevel", N=700, passes=1, period=70, ram=3, st=0), mkcfg("Revolve", max_n=300, ram=3),
+              mkcfg("HRevolve", max_n=160, ram=2, disk=2), mkcfg("DiskRevolve", max_n=250, ram=2),
+              mkcfg("PeriodicDiskRevolve", max_n=400, ram=2)]
+    procs = []
+    for g in giants:
+        g["prefix"] = 12
+        g["watchdog"] = 100
+        procs.append(_sp.Popen([_sys.executable, "-m", "harness.c17", _json.dumps(g)], cwd=_V,
+                               env=dict(_os.environ, PYTHONHASHSEED="0"), stdout=_sp.PIPE, stderr=_sp.PIPE, text=True))
+    for pr in procs:
+        o, e = pr.communicate(timeout=900)
+        if pr.returncode != 0:
+            raise fw.Machinery("cold-start giant run failed: " + e[-600:])
+        traces.append(_json.loads(o))
     verdicts = fw.validate(ctx, traces, module="TraceDomain")
     viols = []
     zones = Counter()
@@ -65,3 +88,11 @@ def check(ctx):
     }
     return viols, cov, ["unspecified zone (not judged): negative unit counts, zero/negative costs, "
                         "Revolve-family max_n = 1 with no RAM unit"]
+
+
+if __name__ == "__main__":
+    import json
+    import sys
+    from .common import VERIF
+    sys.path.insert(0, VERIF)
+    print(json.dumps(record._work(json.loads(sys.argv[1]))))
